@@ -129,7 +129,7 @@ def _consts(e):
 _calib_cache = {}
 
 
-def scenario(arms, default_ok, replies, delays, flags, res, tag):
+def scenario(arms, default_ok, replies, delays, flags, res, tag, scale=1.0):
     spec, fn = build_switch(arms, default_ok)
     os.makedirs(WORK, exist_ok=True)
     workdir = tempfile.mkdtemp(prefix="c05-", dir=WORK)
@@ -145,14 +145,14 @@ def scenario(arms, default_ok, replies, delays, flags, res, tag):
         spath = os.path.join(workdir, "script")
         os.makedirs(spath, exist_ok=True)
         open(os.path.join(spath, "default.kind"), "w").write("unknown")
-        open(os.path.join(spath, "timeout.sleep"), "w").write("4")
+        open(os.path.join(spath, "timeout.sleep"), "w").write(str(4 * scale))
         for base, i in mapping.items():
             open(os.path.join(spath, base + ".kind"), "w").write(replies[i])
             open(os.path.join(spath, base + ".val"), "w").write(str(i + 1))
             if delays.get(i):
-                open(os.path.join(spath, base + ".delay"), "w").write(str(delays[i]))
+                open(os.path.join(spath, base + ".delay"), "w").write(str(delays[i] * scale))
         has_to = any(r == "timeout" for r in replies.values())
-        ov = dict(solver_command=f"{STUB} {spath}", solver_timeout_assertion=1.5 if has_to else 6.0, solver_threads=max(1, len(need)))
+        ov = dict(solver_command=f"{STUB} {spath}", solver_timeout_assertion=(1.5 if has_to else 6.0) * scale, solver_threads=max(1, len(need)))
         ov.update(flags)
         if flags.get("solver_threads"):
             ov["solver_threads"] = flags["solver_threads"]
@@ -355,7 +355,14 @@ def main():
             if res2.get("candidates"):
                 persists += 1
         if persists == 2:
-            run.violation(c["what"], c, key=c["key"])
+            # slow motion: every time constant of the scenario (solver time limit, stub sleep, reply delays) x8.  A stub reply that missed the
+            # time limit only because the machine is overloaded arrives in time now; an ordering defect in halmos does not depend on the scale
+            res3 = new_result()
+            scenario(list(c["arms"]), c.get("default_ok") in (True, "True"), replies, {}, flags, res3, "slow-motion-rerun", scale=8.0)
+            if res3.get("candidates"):
+                run.violation(c["what"], c, key=c["key"])
+            else:
+                run.count("mismatch_not_reproduced_in_slow_motion")
         else:
             run.count("mismatch_not_reproduced_serially")
     run.exhaustive = False
